@@ -264,15 +264,28 @@ package flamego
 //@     (forall m string :: r.staticRoutes[m] != r.namedRoutes) &&
 //@     (forall n string :: has(r.namedRoutes, n) ==> r.namedRoutes[n] != nil)
 
+// C10: the table agrees with the tree: an entry is the leaf that tree matching answers for its key, whatever the headers
+//@ ghost field http.Request.chosen route.Leaf   // the leaf whose handler served the request (nil: not found)
+//@ define shortcutAgrees(r *router) bool =
+//@     (forall m string, p string :: has(r.staticRoutes, m) && has(r.staticRoutes[m], p) ==> has(r.routeTrees, m)) &&
+//@     (forall m string, p string, h http.Header :: has(r.staticRoutes, m) && has(r.staticRoutes[m], p) ==>
+//@         specNext(nodeOf(r.routeTrees[m]), trimLeftSlash(p), 0, h) == r.staticRoutes[m][p])
 // C10: what is stored in the fast-path table
 //@ define shortcutInv(r *router) bool = forall m string, p string :: has(r.staticRoutes, m) && has(r.staticRoutes[m], p) ==> shortcutOK(r.staticRoutes[m][p])
 
 //@ func (*router).ServeHTTP
-//@   props C07 C02
+//@   props C07 C02 C10
+//@   requires[C10] shortcutAgrees(r)
+//@   ghost before dyn#0: req.chosen = leaf
+//@   ghost before dyn#1: req.chosen = leaf
+//@   ghost before notFound#0: req.chosen = nil
+//@   ghost before notFound#1: req.chosen = nil
+//@   ensures[C10] has(r.routeTrees, req.Method) ==> req.chosen == specNext(nodeOf(r.routeTrees[req.Method]), trimLeftSlash(req.URL.Path), 0, req.Header)
+//@   ensures[C10] !has(r.routeTrees, req.Method) ==> req.chosen == nil
 //@   assert[C02] before dyn#1: params["route"] == routeStr(leafBase(leaf).route)
 //@   requires routerWF(r) && treeWF()
 //@   requires w != nil && req != nil && req.URL != nil
-//@   modifies req.chains, route.Segment.str, route.Segment.strOnce.fired, route.Route.str, route.Route.strOnce.fired
+//@   modifies req.chosen, req.chains, route.Segment.str, route.Segment.strOnce.fired, route.Route.str, route.Route.strOnce.fired
 //@   panics true
 //@   ensures req.chains == old(req.chains) + 1
 
@@ -595,7 +608,7 @@ package flamego
 //@ define routeObjWF(x *Route) bool = x != nil && x.router != nil && x.leaves != nil && (forall m string :: has(x.leaves, m) ==> x.leaves[m] != nil && live(leafBase(x.leaves[m])))
 
 //@ func (*router).addRoute
-//@   props C08 C10
+//@   props C08 C09 C10
 //@   requires routerWF(r) && treeWF() && handler != nil
 //@   modifies maps(type(map[string]route.Leaf)), route.baseTree.leaves, route.baseTree.subtrees, elems(type([]route.Leaf)), elems(type([]route.Tree)),
 //@       route.Segment.str, route.Segment.strOnce.fired, route.Route.str, route.Route.strOnce.fired, elems(type([]string))
